@@ -1,6 +1,8 @@
 package rules
 
 import (
+	ssa "xvc/xssa"
+
 	"xvc/q"
 )
 
@@ -44,6 +46,16 @@ func c20(c *q.Ctx) {
 	}
 	dc := c.Fn(p2p + "Decompress")
 	if dc != nil {
+		// the parameter guard refuses only what NewMessage never builds (a missing header, data or payload field);
+		// an EMPTY payload is a legal message (Compress leaves it as it is) and must decode
+		refused := q.Target{Name: "the parameter-error exit", Instr: func(i ssa.Instruction) bool {
+			r, ok := i.(*ssa.Return)
+			return ok && len(r.Results) == 2 && q.DefinitelyNonNilErr(r.Results[1])
+		}}
+		c.OnlyUnder(dc, refused, []q.Cond{
+			{Canon: "(nil == p0)", Sense: true}, {Canon: "(nil == p0.Header)", Sense: true},
+			{Canon: "(nil == p0.Data)", Sense: true}, {Canon: "(nil == p0.Data.MsgInfo)", Sense: true},
+		}, "only a message with a missing part is refused before decoding")
 		c.Effect(dc, q.Eff{Spec: "snappy::Decode", Arg: 1, Glob: "p0.Data.MsgInfo", Req: []q.Cond{{Canon: "p0.Header.EnableCompress", Sense: true}}, Why: "a compressed payload is decoded, an uncompressed one is returned as is", Rule: "K7"})
 	}
 	c.WhoWrites("XuperMessage_MessageData.MsgInfo", map[string]string{
